@@ -119,6 +119,7 @@ type Machine struct {
 	raceOn   bool
 	mutexes  map[*Obj]*mutexState
 	subKeys  map[string]*Obj
+	syncMaps map[string]*MapV
 	spec     bool // speculative (if-conversion) evaluation in progress
 	noIfConv bool
 	ifConvs  int
@@ -524,6 +525,7 @@ func (m *Machine) resetPath() {
 	m.callDepth = 0
 	m.mutexes = map[*Obj]*mutexState{}
 	m.subKeys = map[string]*Obj{}
+	m.syncMaps = map[string]*MapV{}
 	m.raceOn = false
 	if m.funcs == nil {
 		m.funcs = map[*ssa.Function]bool{}
